@@ -14,6 +14,12 @@ ENGINE_OF = {'C03': 'recsim', 'C13': 'histsim', 'C14': 'concsim',
 KNOWN_PATH = os.path.join(core.VERIF, 'known_findings.json')
 
 
+def out_dir():
+  """Where evidence and replay files go: /verif, or $LSIM_OUT when checks are pointed at a
+  scratch copy of the repository (self-tests), so that real evidence is never overwritten."""
+  return os.environ.get('LSIM_OUT') or core.VERIF
+
+
 def load_known(prop):
   if not os.path.exists(KNOWN_PATH):
     return []
@@ -92,7 +98,7 @@ def confirm_and_write(engine_name, prop, seed, v, tier):
           if x['class'] == viol['class'] and x.get('key') == viol.get('key')]
   if not hits:
     return None, 'violation did not reproduce in a fresh interpreter'
-  d = os.path.join(core.VERIF, 'replays', prop)
+  d = os.path.join(out_dir(), 'replays', prop)
   os.makedirs(d, exist_ok=True)
   replay = {'property': prop, 'engine': engine_name, 'seed': seed, 'hashseed': hs,
             'case': case, 'violation': hits[0], 'minimisation': mini}
@@ -160,7 +166,7 @@ def write_evidence(prop, tier, seed, engine, merged, wall, failures, skipped,
   ev = {'property_id': prop, 'tier': tier, 'seed': seed, 'level': 'exploration',
         'coverage': coverage, 'assumptions': meta['assumptions'],
         'wall_s': round(wall, 2), 'violations': n_viol}
-  d = os.path.join(core.VERIF, 'evidence')
+  d = os.path.join(out_dir(), 'evidence')
   os.makedirs(d, exist_ok=True)
   with open(os.path.join(d, prop + '.json'), 'w') as f:
     json.dump(ev, f, indent=1, sort_keys=True)
